@@ -229,6 +229,12 @@ def build_grader(cfg):
     return SumGrader(**kw)
 
 
+# defaults stated in SumGrader's docstring ("default changed to ...", "(default 1e3)", the input_positions table)
+DOCUMENTED_DEFAULTS = {'tolerance': 1e-12, 'samples': 2, 'infty_val': 1e3, 'infty_val_fact': 80, 'even_odd': 0,
+                       'input_positions': {'lower': 1, 'upper': 2, 'summand': 3, 'summation_variable': 4},
+                       'failable_evals': 0, 'instructor_vars': [], 'variables': []}
+
+
 def case_seed(key):
     import hashlib
     return int(hashlib.sha256(key.encode()).hexdigest()[:8], 16)
@@ -249,6 +255,7 @@ def run_case(spec):
     out['reserved'] = list(g.functions.keys()) + list(g.random_funcs.keys()) + list(g.constants.keys())
     out['default_scope'] = sorted(set(g.constants.keys()) | set(g.config['variables']))
     out['true_positions'] = dict(g.true_input_positions)
+    out['config_view'] = {k: g.config.get(k) for k in DOCUMENTED_DEFAULTS}
     inputs = spec['inputs']
     with Recorder() as rec:
         st, r = core.guarded(g, None, copy.deepcopy(inputs))
@@ -883,7 +890,7 @@ def inputs_from(pos, fields):
     return out
 
 
-def transform(rng, author, entered, eo, variables, infinite):
+def transform(rng, author, entered, eo, variables, infinite, tiny=False):
     """author = (lo, hi, tree, var) -> student's (lo, hi, tree, var), label.  Only entered fields may differ."""
     lo, hi, tree, var = author
     e_lo, e_hi, e_sum, e_var = entered
@@ -900,6 +907,9 @@ def transform(rng, author, entered, eo, variables, infinite):
         ops += ['rewrite', 'perturb-summand', 'scale']
     if e_lo or e_hi:
         ops.append('perturb-limit')
+    if tiny and e_sum:
+        # near misses: relative size between 1e-11 and 1e-5, far above an absolute 1e-12 and far below 0.01%
+        ops += ['tiny-scale', 'tiny-scale', 'tiny-scale', 'tiny-component', 'tiny-add']
     ops.append('same')
     for _ in range(rng.choice([1, 1, 2])):
         op = rng.choice(ops)
@@ -929,6 +939,18 @@ def transform(rng, author, entered, eo, variables, infinite):
             tree = ('mul', ('c', rng.choice([Fraction(11, 10), Fraction(21, 20), Fraction(9, 10), Fraction(101, 100),
                                               Fraction(1001, 1000), Fraction(3, 2), Fraction(221, 200), Fraction(221, 200),
                                               Fraction(10101, 10000), Fraction(10101, 10000), Fraction(200, 221)])), tree)
+        elif op == 'tiny-scale':
+            tree = ('mul', ('c', 1 + Fraction(1, 2 ** rng.choice([17, 20, 20, 24, 30, 36]))), tree)
+        elif op == 'tiny-add':
+            eps_ = ('c', Fraction(rng.choice([1, -1]), 2 ** rng.choice([17, 20, 24, 30])))
+            tree = ('vec', tuple(('add', x, eps_) for x in tree[1])) if tree[0] == 'vec' else ('add', tree, eps_)
+        elif op == 'tiny-component':
+            eps_ = ('c', Fraction(1, 2 ** rng.choice([17, 20, 24])))
+            if tree[0] == 'vec':
+                j = rng.randrange(len(tree[1]))
+                tree = ('vec', tuple(('add', x, eps_) if k_ == j else x for k_, x in enumerate(tree[1])))
+            else:
+                tree = ('add', tree, ('mul', eps_, ('n',)))
         elif op == 'perturb-limit':
             which = rng.choice([w for w, e in (('lo', e_lo), ('hi', e_hi)) if e])
             d = rng.choice([-2, -1, 1, 2])
@@ -998,13 +1020,14 @@ def value_case(rng, key, a, b, eo, tier, infinite=None, pool=None, cutoff=None):
     pos = pick_positions(rng)
     entered = [True] * 4 if pos is None else [p is not None for p in pos]
     author = (lo, hi, tree, avar)
-    student, label = transform(rng, author, entered, eo, variables, infinite is not None)
+    tol = rng.choice(TOLS)       # None: tolerance not given (documented default: 1e-12, absolute)
+    if infinite is not None and tol in (None, 0):
+        tol = rng.choice([1e-6, '0.01%', '1%'])
+    student, label = transform(rng, author, entered, eo, variables, infinite is not None,
+                               tiny=tol in (None, 1e-6, '0.01%') and rng.random() < 0.7)
     if cfg.get('user_fact') and entered[2] and rng.random() < 0.5:
         student = (student[0], student[1], ('mul', student[2], ('fact0',)), student[3])
         label += '+fact'
-    tol = rng.choice(TOLS)
-    if infinite is not None and tol in (None, 0):
-        tol = rng.choice([1e-6, '0.01%', '1%'])
     cfg['answers'] = [render_limit(rng, lo, variables), render_limit(rng, hi, variables), sx.render(tree, avar), avar]
     if pos is not None:
         cfg['positions'] = pos
@@ -1012,11 +1035,14 @@ def value_case(rng, key, a, b, eo, tier, infinite=None, pool=None, cutoff=None):
         cfg['even_odd'] = eo
     if tol is not None:
         cfg['tolerance'] = tol
-    cfg['samples'] = rng.choice([1, 1, 1, 2, 2, 3])
+    if rng.random() < 0.75:      # otherwise samples is not given (documented default: 2)
+        cfg['samples'] = rng.choice([1, 1, 1, 2, 2, 3])
     fields = [render_limit(rng, student[0], variables), render_limit(rng, student[1], variables),
               sx.render(student[2], student[3]), student[3]]
     meta = {'author': author, 'student': student, 'eo': eo, 'cut': cut, 'cut_fact': cfg.get('infty_val_fact', 80), 'tol': 1e-12 if tol is None else tol,
-            'exact': exact, 'label': label, 'variables': variables}
+            # float evaluation is exact only if the transformations kept every constant dyadic (a factor such as
+            # 10101/10000 is rounded: an exactly vanishing sum then differs from 0 by rounding, which matters at tolerance 0)
+            'exact': bool(exact and sx.dyadic(tree) and sx.dyadic(student[2])), 'label': label, 'variables': variables}
     return {'key': key, 'kind': 'value', 'cfg': cfg, 'inputs': inputs_from(pos, fields), 'meta': meta}
 
 
@@ -1388,6 +1414,16 @@ def oracle(run):
                   (', other limit ' + meta['mixed_with_infinity'] if meta.get('mixed_with_infinity') else ''), repr(r)[:200]))
         return fails
 
+    if kind == 'defaults':
+        view = run.get('config_view') or {}
+        for k, want in DOCUMENTED_DEFAULTS.items():
+            got = view.get(k)
+            if got != want or type(got) is not type(want) and not (isinstance(got, (int, float)) and isinstance(want, (int, float))):
+                fail('a SumGrader built from the answers alone has %s = %r, the documented default is %r' % (k, got, want))
+        if not (st == 'ret' and r.get('ok') is True):
+            fail('default-configured grader did not accept the author\'s own sum: %s' % repr(r)[:200])
+        return fails
+
     if kind == 'probe':
         # the student's sum is the author's with the limits swapped: equal in value, no function the author does not use
         fresh = meta.get('fresh')
@@ -1485,6 +1521,8 @@ def corpus():
         {'what': 'noninteger-limit', 'field': 1, 'bad': '7/2', 'mixed_with_infinity': 'infty', 'lo': 0, 'hi': 1, 'eo': 0})
     add('author-noninteger-lower-with-infinite-upper', 'author-error', dict(geo, answers=['1/2', 'infty', 'x^n', 'n']),
         ['0', 'infty', 'x^n', 'n'], {'what': 'mixed-limit', 'field': (0, 'infty'), 'bad': '1/2', 'entered': [True] * 4})
+    # a grader built from the answers alone: the documented defaults
+    add('documented-defaults', 'defaults', {'answers': ['1', '4', 'n^2', 'n']}, ['1', '4', 'k^2', 'k'], {})
     # values
     n = ('n',)
     for j, (a, s, eo, ok) in enumerate([
@@ -1703,7 +1741,7 @@ def run(ctx):
     changed = ctx.get('fingerprints_changed', [])
     full = ctx['tier'] == 'thorough' or bool(ctx.get('broken')) or (0 < len(changed) < len(MIRRORED))
     res.notes.append('Coq replay volume: %s' % ('full' if full else 'all non-grid cases + 1/3 of the grid'))
-    dist = {'value': 0, 'student-error': 0, 'author-error': 0, 'positions': 0, 'dummy-contrast': 0, 'probe': 0, 'unencodable': 0, 'oracle_boundary': 0,
+    dist = {'value': 0, 'student-error': 0, 'author-error': 0, 'positions': 0, 'dummy-contrast': 0, 'probe': 0, 'defaults': 0, 'unencodable': 0, 'oracle_boundary': 0,
             'ref_errors': 0, 'verdict_true': 0, 'verdict_false': 0, 'raised': 0, 'terms_evaluated': 0}
     labels, errkinds = {}, {}
     for spec, o in zip(specs, outs):
